@@ -113,7 +113,9 @@ pub struct Inner {
     pub trace: Vec<String>,
     pub decisions: Vec<u32>,
     pub stuck: Option<String>,
+    /// link threads the supervisors have spawned so far (as far as the controller could tell) / that have registered
     pub expected_registrations: usize,
+    pub registrations_done: usize,
     pub panics: Vec<String>,
     pub election_wins: Vec<(usize, String)>,
     pub ticks: u64,
@@ -150,6 +152,12 @@ fn is_tick_site(site: &str) -> bool {
 static INSTALL: std::sync::Once = std::sync::Once::new();
 
 /// Installs the global hook callbacks (point + transport) for Engine N.
+fn member_sender(dbs: &Arc<Databases>, name: &str) -> Option<futures::channel::mpsc::Sender<String>> {
+    let cs = dbs.cluster_state.lock().unwrap();
+    let m = cs.members.lock().unwrap();
+    m.get(name).and_then(|x| x.sender.clone())
+}
+
 pub fn install_hooks() {
     INSTALL.call_once(|| {});
     nundb::verif::set_point_callback(Some(Arc::new(|site: &str| {
@@ -192,6 +200,7 @@ impl Sim {
                 decisions: vec![],
                 stuck: None,
                 expected_registrations: 0,
+                registrations_done: 0,
                 panics: vec![],
                 election_wins: vec![],
                 ticks: 0,
@@ -282,11 +291,16 @@ impl Sim {
             pre.push_back(format!("replicate-since {} {}", req.own_address, nundb::disk_ops::Oplog::last_op_time()));
         }
         let Some(peer) = peer else {
-            // connection refused: start_replication returns at once
+            // connection refused: start_replication returns at once, and with it the receiving end of the member's
+            // command queue is gone (dropped here, before the scheduler goes on, so that "the link is closed" does not
+            // depend on when this OS thread gets to run its epilogue)
+            let unreachable = req.peer_address.clone();
+            drop(req);
+            let req_peer_address = unreachable;
             let mut g = self.inner.lock().unwrap();
             let step = g.steps;
-            g.trace.push(format!("[{}] n{} cannot connect to {}", step, node, req.peer_address));
-            g.expected_registrations = g.expected_registrations.saturating_sub(1);
+            g.trace.push(format!("[{}] n{} cannot connect to {}", step, node, req_peer_address));
+            g.registrations_done += 1;
             self.cv.notify_all();
             return;
         };
@@ -314,7 +328,7 @@ impl Sim {
             while g.threads[server_tid].status == Status::Running {
                 g = self.cv.wait(g).unwrap();
             }
-            g.expected_registrations = g.expected_registrations.saturating_sub(1);
+            g.registrations_done += 1;
             self.cv.notify_all();
         }
         self.enter(client_tid, &dir);
@@ -1029,17 +1043,24 @@ impl Cluster {
                 }
             }
             Act::PumpSup(ni) => {
-                let (m, mut node, expect) = {
+                let mut member_before: Option<Option<futures::channel::mpsc::Sender<String>>> = None;
+                let mut sup_dbs: Option<(Arc<Databases>, String)> = None;
+                let (m, mut node, mut expect) = {
                     let mut g = self.sim.inner.lock().unwrap();
                     let m = g.nodes[ni].sup_q.pop_front().unwrap();
                     let mut p = m.splitn(2, ' ');
                     let cmd = p.next().unwrap_or("");
                     let name = p.next().unwrap_or("").to_string();
                     let dbs = g.nodes[ni].dbs.clone().unwrap();
-                    let expect = matches!(cmd, "secoundary" | "primary" | "new-secoundary") && !dbs.has_cluster_memeber(&name);
+                    let link_cmd = matches!(cmd, "secoundary" | "primary" | "new-secoundary");
+                    let expect = link_cmd && !dbs.has_cluster_memeber(&name);
                     if expect {
                         g.expected_registrations += 1;
                     }
+                    // the queue of the member as it is now: if the supervisor replaces it, it has spawned a link thread
+                    // for a member it already knew
+                    member_before = if link_cmd && !expect { Some(member_sender(&dbs, &name)) } else { None };
+                    sup_dbs = Some((dbs.clone(), name.clone()));
                     let step = g.steps;
                     g.trace.push(format!("[{}] n{} supervisor: {}", step, ni, m));
                     (m, g.nodes[ni].node.take().unwrap(), expect)
@@ -1055,16 +1076,28 @@ impl Cluster {
                         }
                     }
                 }
+                if let (Some(before), Some((dbs, name)), true) = (member_before, sup_dbs, r.is_ok()) {
+                    let now = member_sender(&dbs, &name);
+                    let replaced = match (&before, &now) {
+                        (Some(a), Some(b)) => !a.same_receiver(b),
+                        (None, Some(_)) => true,
+                        _ => false,
+                    };
+                    if replaced {
+                        self.sim.inner.lock().unwrap().expected_registrations += 1;
+                        expect = true;
+                    }
+                }
                 if expect && r.is_ok() {
                     // the thread the supervisor spawned registers itself as the client side of the new link
                     let mut g = self.sim.inner.lock().unwrap();
                     let deadline = Instant::now() + Duration::from_secs(30);
-                    while g.expected_registrations > 0 {
+                    while g.registrations_done < g.expected_registrations {
                         let (g2, _) = self.sim.cv.wait_timeout(g, Duration::from_millis(50)).unwrap();
                         g = g2;
                         if Instant::now() > deadline {
                             g.stuck = Some("a link thread spawned by the supervisor never registered".into());
-                            g.expected_registrations = 0;
+                            g.registrations_done = g.expected_registrations;
                             break;
                         }
                     }
